@@ -235,6 +235,12 @@ def schedules(quick):
         ("subdir-file-edited", "", [(0, "model", 1, "inplace"), (400, "sub-file", 2, "inplace")]),
         ("subdir-file-edited-rename", "", [(0, "sub-file", 1, "rename"), (400, "sub-file", 2, "rename")]),
         ("subdir-lib-file-edited", "", [(0, "model", 1, "inplace"), (400, "lib-sub-file", 2, "inplace")]),
+        # a populated subdirectory is moved out of the package (one rename event, no event for the files in it), and back
+        ("subdir-moved-out", "", [(0, "model", 1, "inplace"), (400, "sub-dir-move-out", 2, "inplace")]),
+        ("subdir-lib-moved-out", "", [(0, "model", 1, "inplace"), (400, "lib-sub-dir-move-out", 2, "inplace")]),
+        ("subdir-moved-out-and-back", "", [(0, "sub-dir-move-out", 1, "inplace"), (500, "sub-dir-move-back", 2, "inplace")]),
+        ("subdir-deep-moved-out", "", [(0, "model", 1, "rename"), (400, "sub-deep-dir-move-out", 2, "inplace")]),
+        ("subdir-removed-recursively", "", [(0, "model", 1, "inplace"), (400, "sub-dir-rm", 2, "inplace")]),
         ("new-subdir-file-added", "", [(0, "model", 1, "inplace"), (400, "sub-file", 2, "inplace"), (400, "sub-file", 3, "inplace")]),
         ("new-lib-subdir-file-added", "", [(0, "model", 1, "inplace"), (400, "lib-sub-file", 2, "inplace"), (400, "lib-sub-file", 3, "rename")]),
         # the imported package becomes invalid and is repaired by saves inside the imported package only
@@ -385,6 +391,21 @@ def run(ctx):
                     libsub = "LibSub%d: !record\n  fields:\n    z: int\n" % v
                     os.makedirs(os.path.join(root, "lib/more"), exist_ok=True)
                     save(os.path.join(root, "lib/more/extra.yml"), libsub, how)
+                elif kind == "sub-dir-move-out":
+                    os.rename(os.path.join(root, "main/sub"), os.path.join(root, "parked_sub"))
+                    sub_saved, sub = sub, None
+                elif kind == "sub-dir-move-back":
+                    os.rename(os.path.join(root, "parked_sub"), os.path.join(root, "main/sub"))
+                    sub = sub_saved
+                elif kind == "sub-deep-dir-move-out":
+                    os.rename(os.path.join(root, "main/sub/deep"), os.path.join(root, "parked_deep"))
+                    sub = None
+                elif kind == "sub-dir-rm":
+                    shutil.rmtree(os.path.join(root, "main/sub"))
+                    sub = None
+                elif kind == "lib-sub-dir-move-out":
+                    os.rename(os.path.join(root, "lib/more"), os.path.join(root, "parked_more"))
+                    libsub = None
                 elif kind == "rm-output":
                     shutil.rmtree(os.path.join(root, "out"), ignore_errors=True)
                 elif kind == "rm-python-output":
